@@ -35,9 +35,9 @@ def cfg(name, inv=ALLINV, **k):
 
 FS = ["FFn", "FStatic"]
 ABC = ["none", "a", "b"]
-# ---- bounded model checking, quick tier (about 1.4M states together)
+# ---- bounded model checking, quick tier (about 1.9M states together)
 cfg("MC_Postprocess_sort_q", Kinds=ALL9, Abis=["C"], BAttrs=["none"], MaxLen=4, MaxNodes=4)
-cfg("MC_Postprocess_merge_q", Kinds=["Struct"], MaxLen=4, MaxDepth=0, MaxNodes=8)
+cfg("MC_Postprocess_merge_q", Kinds=["Struct"], FKinds=FS, MaxLen=4, MaxDepth=0, MaxNodes=8)
 cfg("MC_Postprocess_attrs_q", Kinds=["Fn"], Abis=["C"], FKinds=FS, FAttrs=ABC, MaxForeign=2, MaxLen=2, MaxInner=1,
     MaxNodes=6)
 cfg("MC_Postprocess_nest_q", Kinds=["Struct", "Use"], Abis=["C"], MaxLen=3, MaxInner=3, MaxDepth=2, MaxNodes=5)
@@ -47,14 +47,14 @@ cfg("MC_Postprocess_keyUnsafety_q", UnsChoices=["TRUE", "FALSE"], Uniform="FALSE
 # ---- thorough tier
 cfg("MC_Postprocess_sort_t", Kinds=ALL9, Abis=["C"], BAttrs=["none"], MaxLen=5, MaxNodes=5)
 cfg("MC_Postprocess_sort6_t", Kinds=["Type", "Struct", "Fn", "Static", "Impl", "Use"], Abis=["C"], BAttrs=["none"],
-    MaxForeign=0, MaxLen=6, MaxInner=2, MaxNodes=6)
-cfg("MC_Postprocess_merge_t", Kinds=["Struct", "Fn"], FKinds=FS, MaxLen=5, MaxDepth=0, MaxNodes=10)
-cfg("MC_Postprocess_merge6_t", Kinds=["Struct"], MaxLen=6, MaxDepth=0, MaxNodes=12)
-cfg("MC_Postprocess_full_t", Kinds=ALL9, BAttrs=ABC, FKinds=FS, FAttrs=ABC, MaxLen=3, MaxInner=2, MaxNodes=5)
+    MaxForeign=0, MaxLen=6, MaxDepth=0, MaxNodes=6)
+cfg("MC_Postprocess_merge_t", Kinds=["Struct", "Fn"], MaxLen=5, MaxDepth=0, MaxNodes=10)
+cfg("MC_Postprocess_merge6_t", Kinds=[], MaxLen=6, MaxDepth=0, MaxNodes=12)
+cfg("MC_Postprocess_full_t", Kinds=ALL9, BAttrs=ABC, FKinds=FS, FAttrs=["none", "b"], MaxLen=3, MaxInner=2, MaxNodes=5)
 cfg("MC_Postprocess_attrs_t", Kinds=["Fn"], BAttrs=ABC, FKinds=FS, FAttrs=ABC, MaxForeign=2, MaxLen=2, MaxInner=1,
     MaxNodes=6)
-cfg("MC_Postprocess_nest_t", Kinds=["Struct", "Use"], MaxLen=4, MaxInner=3, MaxDepth=2, MaxNodes=6)
-cfg("MC_Postprocess_uns_t", Kinds=["Static"], BAttrs=ABC, UnsChoices=["TRUE", "FALSE"], MaxLen=4, MaxNodes=6)
+cfg("MC_Postprocess_nest_t", Kinds=["Struct", "Use"], Abis=["C"], MaxLen=4, MaxInner=3, MaxDepth=2, MaxNodes=6)
+cfg("MC_Postprocess_uns_t", Kinds=["Static"], UnsChoices=["TRUE", "FALSE"], MaxLen=4, MaxNodes=6)
 # the key with unsafety would satisfy L1 on arbitrary (non-uniform) sequences
 cfg("MC_Postprocess_keyUnsafety_t", UnsChoices=["TRUE", "FALSE"], Uniform="FALSE", Mutant="merge_key_unsafety",
     MaxLen=4, MaxDepth=0, MaxNodes=8, inv=L1INV)
